@@ -504,6 +504,27 @@ def main():
                            'sorted(set(...)) is modelled as the unique strictly increasing list of the distinct inputs'])
 
 
+def rebuild_entry(kind, members):
+    """a deterministic re-creation of an entry-point case from the member vertex lists of a replay
+    (the hull only depends on the set of vertices, so any shapes with these vertices will do)"""
+    def shape(m, i):
+        if len(m) == 1:
+            return GeoPoint(C(m[0]), dt=T0 + timedelta(hours=i)) if kind == 'track' else GeoPoint(C(m[0]))
+        if len(m) >= 4 and m[0] == m[-1]:
+            return GeoPolygon([C(p) for p in m])
+        return GeoLineString([C(p) for p in m])
+    shapes = [shape(m, i) for i, m in enumerate(members)]
+    if kind == 'mpoint':
+        return MultiGeoPoint(shapes).convex_hull()
+    if kind == 'mline':
+        return MultiGeoLineString(shapes).convex_hull()
+    if kind == 'mpoly':
+        return MultiGeoPolygon(shapes).convex_hull()
+    if kind == 'track':
+        return Track(shapes).convex_hull
+    return FeatureCollection(shapes).convex_hull
+
+
 def replay(path):
     r = json.load(open(path))
     m = r.get('case') or {}
@@ -514,18 +535,32 @@ def replay(path):
     set_scale((r.get('shrunk') or {}).get('scale') or m.get('scale') or 1)
     out = guarded(lambda: impl_hull(pts))
     print(f'input (grid step 1/{SCALE} degree):', pts)
-    print('implementation now:', out)
+    print('_geometry.convex_hull now:', out)
     print('reference (mirror of the Coq model):', ref_hull(pts))
     if out[0] == 'Ok':
         print('property clauses violated now:', oracle(pts, out[1]))
+    lits = [f'KHull {ptslit(pts)} {ptslit(out[1]) if out[0] == "Ok" else "[]"}']
+    evals = [f'hull {ptslit(pts)}']
+    if m.get('k') == 'entry':
+        set_scale(m.get('scale') or 1)
+        ms = [[tuple(p) for p in x] for x in m['members']]
+        eo = guarded(lambda: [of_coord(c) for c in rebuild_entry(m['entry'], ms).outline])
+        flat = [p for x in ms for p in x]
+        print(f'entry point {m["entry"]} on members {ms} now:', eo)
+        if eo[0] == 'Ok':
+            print('property clauses violated now:', oracle(flat, eo[1]))
+        lits.append(f'KEntry {listlit([ptslit(x) for x in ms])} {reslit(eo, ptslit)}')
+        evals.append(f'hull_of_members {listlit([ptslit(x) for x in ms])}')
     ck = Check('C10', argv=[])
-    lit = f'KHull {ptslit(pts)} {ptslit(out[1]) if out[0] == "Ok" else "[]"}'
     fn = os.path.join(ck.rundir, 'replay.v')
     with open(fn, 'w') as f:
-        f.write('From GV Require Import Prelude HullM HullK.\n'
-                f'Eval vm_compute in (hull {ptslit(pts)}).\nEval vm_compute in (check ({lit})).\n')
+        f.write('From GV Require Import Prelude HullM HullK.\n')
+        for e in evals:
+            f.write(f'Eval vm_compute in ({e}).\n')
+        for lit in lits:
+            f.write(f'Eval vm_compute in (check ({lit})).\n')
     rc, o = ck.coqc(fn)
-    print('Coq model (hull) and check verdict:\n' + o)
+    print('Coq model value(s) and verdict(s) of the correspondence check on the current outputs:\n' + o)
 
 
 if __name__ == '__main__':
